@@ -107,3 +107,12 @@ func VerifGetOpID(ctx FContext) (uint64, error) { return getOpID(ctx) }
 func VerifBaseExecuteFrame(frame []byte) error {
 	return newFBaseTransport(0).ExecuteFrame(frame)
 }
+
+// VerifAdapterRegistryExecute hands a frame (without size prefix) to an adapter
+// transport's registry, as its read loop does.
+func VerifAdapterRegistryExecute(t FTransport, frame []byte) error {
+	if tr, ok := t.(*fAdapterTransport); ok {
+		return tr.registry.Execute(frame)
+	}
+	return thrift.NewTTransportException(TRANSPORT_EXCEPTION_UNKNOWN, "verif: not an adapter transport")
+}
